@@ -529,7 +529,7 @@ func init() {
 		},
 		Phases: func(tier string) []mon.PhaseSpec {
 			ph := []mon.PhaseSpec{
-				{Name: "hostile", Flavour: "plain"},
+				{Name: "hostile", Flavour: "plain", UlimitVKB: 16 << 20}, // 16 GiB of address space: a decoder that allocates from input numbers dies here instead of exhausting the machine
 				{Name: "alloc", Flavour: "plain", UlimitVKB: 3 << 20, Shards: 8, Env: []string{"GOMAXPROCS=2", "VERIF_WORKERS=1"}},
 			}
 			if tier == "thorough" {
